@@ -133,6 +133,16 @@ fn truncated(r: &mut Rng, pem: &str) -> String {
 async fn run_history(log: &Log, r: &mut Rng, pairs: &[Pair], sc: &Value, check_expiry: bool, dir: &std::path::Path) {
     let mut ev: Vec<Value> = Vec::new();
     let (cp, kp) = (dir.join("cert.pem"), dir.join("key.pem"));
+    // the initial load is a load like any other: a reloader must not come up on files that do not hold a matching pair
+    if r.chance(1, 12) {
+        let bad = r.below(3);
+        std::fs::write(&cp, if bad == 1 { "not a pem file\n".to_string() } else { pairs[0].cert_pem.clone() }).unwrap();
+        std::fs::write(&kp, match bad { 0 => if r.chance(1, 2) { pairs[1].key_pem.clone() } else { pairs[1].key_pem_sec1.clone() }, 2 => truncated(r, &pairs[0].key_pem), _ => pairs[0].key_pem.clone() }).unwrap();
+        let cfg = CertReloaderConfig { cert_path: cp.clone(), key_path: kp.clone(), watch_enabled: false, debounce_ms: 10, check_expiry, expiry_warning_days: 30 };
+        let came_up = CertReloader::new(cfg).is_ok();
+        log.block_with_consts(json!({"kind": "initial-load", "bad": bad}), json!({"checkExpiry": check_expiry}), vec![json!({"ev": "init", "ok": came_up, "valid": false}), json!({"ev": "end", "panics": 0})]);
+        return;
+    }
     std::fs::write(&cp, &pairs[0].cert_pem).unwrap();
     std::fs::write(&kp, &pairs[0].key_pem).unwrap();
     let cfg = CertReloaderConfig { cert_path: cp.clone(), key_path: kp.clone(), watch_enabled: false, debounce_ms: 10, check_expiry, expiry_warning_days: 30 };
